@@ -82,7 +82,13 @@ def run(ctx):
                                                    os.path.join(obsdir, "verdict_%02d.json" % i),
                                                    name="obs_%02d" % i, timeout=ctx.pick(2400, 7200)))(i, p)
              for i, p in enumerate(chunks)]
-    res = rt.parallel([ljob] + vjobs + tjobs, par)
+    skip_overlay = bool(os.environ.get("VERIF_SKIP_OVERLAY"))   # development aid for mutation demos only
+    # the snapstate overlay test binary (resolveChannel driver) is linked while TLC runs
+    ojob = lambda: None if skip_overlay else goharness.overlay_test_build(
+        ctx, "overlord/snapstate", [os.path.join(common.HARNESS, "overlay", "snapstate", "zz_verif_reftables_test.go")])
+    res = rt.parallel([ojob, ljob] + vjobs + tjobs, par + 1)
+    ov = res[0]
+    res = res[1:]
     mc = res[0]
     vres = res[1:1 + len(vjobs)]
     ctx.log("TLC: laws hold on the reference for %d channel strings (%.0fs); %d table runs; %d observation runs"
@@ -145,7 +151,6 @@ def run(ctx):
                 else:
                     add("kernel", old, news[jn], pin, "", exp)
                     add("brand-gadget", old, news[jn], "", pin, exp)
-    skip_overlay = bool(os.environ.get("VERIF_SKIP_OVERLAY"))   # development aid for mutation demos only
     if skip_overlay:
         ctx.log("WARNING: snapstate.resolveChannel overlay driver skipped (VERIF_SKIP_OVERLAY set) -- not a complete run")
         cases = []
@@ -154,8 +159,6 @@ def run(ctx):
         json.dump(cases, f)
     rrows = []
     if not skip_overlay:
-        ov = goharness.overlay_test_build(ctx, "overlord/snapstate",
-                                          [os.path.join(common.HARNESS, "overlay", "snapstate", "zz_verif_reftables_test.go")])
         rrows = rt.drive(ctx, ov, "TestVerifC34Resolve", os.path.join(os.path.dirname(cfile), "rc.ndjson"),
                          env={"VERIF_CASES": cfile}, cwd=os.path.join(common.REPO, "overlord/snapstate"), timeout=1500)
     n_rc = 0
